@@ -379,6 +379,20 @@ fn write_struct_replay(v: &StructViolation) -> PathBuf {
 pub fn end_to_end_cells(tier: Tier) -> Vec<CellPlan> {
     let q = tier.quick();
     let mut v = Vec::new();
+    // Entities carrying a marker that asks for history: late mutate messages are applied and
+    // must be recorded in the per-entity confirmation history.
+    for off in [0u32, u32::MAX - 5] {
+        let mut c = cells::base(&format!("history-marker-off{off}"), "C12");
+        c.cfg.hist = true;
+        c.cfg.tick_offset = off;
+        c.init = vec![Op::Spawn(0, cells::AB), Op::Spawn(1, cells::M_A)];
+        c.alphabet = vec![Op::Nop, Op::Mut(0, TA), Op::Mut(1, TA), Op::Mut(0, TB)];
+        c.tick_choice = false;
+        c.rounds = if q { 3 } else { 4 };
+        c.env = Env { hold_acks: true, hold_updates: 0, mutations: MutMenu::Full, leftover_choice: false, lossy: false };
+        c.oracles = Oracles { c12: true, c02: true, ..Default::default() };
+        v.push(plan(c, if q { 2 } else { 3 }, 2.0));
+    }
     let mut offsets = vec![0u32];
     if !q {
         offsets.extend([u32::MAX - 3, (1u32 << 31) - 3]);
